@@ -6,6 +6,9 @@
 //!   `er <msg>`                       encode a relay→client message, run the server's send check,
 //!                                    decode the encoding under both versions
 //!   `ec <msg>`                       the same for a client→relay message
+//!   `h <cap> <frame> <frame> …`      a history: the frames are decoded one after the other through ONE
+//!                                    `KeyCache::new(cap)`; `<frame>` = `r1:<kbits>:<hex>` | `r2:<kbits>:<hex>` |
+//!                                    `c:<kbits>:<hex>`; output `<decode> ; <decode> ; … | cache=<keys, MRU first>|off`
 //! `<kbits>`: four characters 0/1 — whether the 32 bytes at offset 1, 2, 4, 8 of the frame are a
 //! valid Ed25519 public key (curve arithmetic is not modelled; the model is told the answer).
 //! `<msg>`: `dg <key> <ecn> <seg> <contents>` | `gone <key>` | `status h|s|r|u<n>` |
@@ -406,6 +409,52 @@ impl C10 {
         out.push(format!("dc {kb} {}", hex(frame)));
     }
 
+    /// A history of frames for one key cache: few distinct keys so that hits, misses and
+    /// evictions all occur; invalid keys and keys one bit away from a cached key in between.
+    fn history(rng: &mut Rng) -> String {
+        let cap = *rng.pick(&[0usize, 1, 1, 2, 2, 3, 4]);
+        let pool: Vec<[u8; 32]> = (0..rng.range(2, 6)).map(|_| *valid_key(rng).as_bytes()).collect();
+        let bad: Vec<[u8; 32]> = (0..3).map(|_| invalid_key(rng)).collect();
+        let mut last = pool[0];
+        let mut toks = vec![format!("h {cap}")];
+        for _ in 0..rng.range(2, 14) {
+            let key: [u8; 32] = match rng.below(20) {
+                0..=9 => *rng.pick(&pool),
+                10 | 11 => last,
+                12..=14 => {
+                    // near miss: one bit away from a key that may be cached
+                    let mut k = *rng.pick(&pool);
+                    k[rng.usize_below(32)] ^= 1 << rng.below(8);
+                    k
+                }
+                15..=17 => *rng.pick(&bad),
+                _ => {
+                    let mut k = [0u8; 32];
+                    rng.fill(&mut k);
+                    k
+                }
+            };
+            last = key;
+            let ty = *rng.pick(&[4u64, 5, 6, 7, 8, 8]);
+            let mut f = varint(ty, 1);
+            let mut body = Self::body_for(rng, ty);
+            body[..32].copy_from_slice(&key);
+            match rng.below(12) {
+                0 => body.truncate(rng.range(0, 33) as usize), // too short for the key / for the datagram header
+                1 => body.truncate(32),
+                2 => {
+                    f = varint(*rng.pick(&[9u64, 10, 12, 13, 11, 0, 3]), 1);
+                    body = Self::body_for(rng, 9);
+                }
+                _ => {}
+            }
+            f.extend(body);
+            let dir = *rng.pick(&["r1", "r2", "c"]);
+            toks.push(format!("{dir}:{}:{}", keybits(&f), hex(&f)));
+        }
+        toks.join(" ")
+    }
+
     /// A frame body that is valid for frame type `ty` (any direction), small contents.
     fn body_for(rng: &mut Rng, ty: u64) -> Vec<u8> {
         match ty {
@@ -584,6 +633,12 @@ impl Prop for C10 {
             }
         }
 
+        // ---- H. histories through one key cache ------------------------------------------------
+        let n_hist = if thorough { n / 12 } else { n / 10 };
+        for _ in 0..n_hist {
+            out.push(Self::history(rng));
+        }
+
         // ---- C/D. mutated valid frames and arbitrary bytes -------------------------------------
         while out.len() < n {
             let ty = match rng.below(10) {
@@ -729,6 +784,59 @@ impl Prop for C10 {
                 if send == "ok" && d.is_err() {
                     ex.violation("sender-accepted-decoder-rejected", show_res(&d, show_c2r));
                 }
+                ex
+            }
+            "h" => {
+                let cap: usize = t[1].parse().expect("cap");
+                let shared = KeyCache::new(cap);
+                let direct = KeyCache::new(0);
+                let mut outs = Vec::new();
+                let mut ex = Exec::default();
+                let mut oks = 0;
+                for (i, tok) in t[2..].iter().enumerate() {
+                    let p: Vec<&str> = tok.split(':').collect();
+                    let frame = unhex(p[2]).expect("hex");
+                    assert_eq!(p[1], keybits(&frame), "key bits in payload are stale");
+                    let b = Bytes::from(frame);
+                    let (with_cache, without) = match p[0] {
+                        "c" => (
+                            show_res(&hooks::client_to_relay_from_bytes(b.clone(), &shared), show_c2r),
+                            show_res(&hooks::client_to_relay_from_bytes(b, &direct), show_c2r),
+                        ),
+                        r => {
+                            let v = if r == "r1" { ProtocolVersion::V1 } else { ProtocolVersion::V2 };
+                            (
+                                show_res(&hooks::relay_to_client_from_bytes(b.clone(), &shared, v), show_r2c),
+                                show_res(&hooks::relay_to_client_from_bytes(b, &direct, v), show_r2c),
+                            )
+                        }
+                    };
+                    // oracle: the cache must not change what a frame decodes to
+                    if with_cache != without {
+                        ex.violation("cache-changes-decode", format!("frame {i}: with cache `{with_cache}`, without `{without}`"));
+                    }
+                    if with_cache.starts_with("ok") {
+                        oks += 1;
+                    }
+                    outs.push(with_cache);
+                }
+                let entries = shared.verif_entries();
+                let cache = match &entries {
+                    None => "off".to_string(),
+                    Some(es) if es.is_empty() => "-".to_string(),
+                    Some(es) => es.iter().map(|k| hex(k.as_bytes())).collect::<Vec<_>>().join(","),
+                };
+                if let Some(es) = &entries {
+                    if es.len() > cap {
+                        ex.violation("cache-exceeds-capacity", format!("{} entries, capacity {cap}", es.len()));
+                    }
+                }
+                if entries.is_none() != (cap == 0) {
+                    ex.violation("cache-mode", format!("capacity {cap} but snapshot {cache}"));
+                }
+                ex.out = format!("{} | cache={cache}", outs.join(" ; "));
+                ex.nontrivial = oks > 0;
+                ex.tags.push(format!("h-cap{cap}-entries{}", entries.map_or(0, |e| e.len())));
                 ex
             }
             other => panic!("unknown payload kind {other}"),
